@@ -26,7 +26,7 @@ pub const PER_PACKET_LIMIT: usize = 1024 * 1024 + 64 * SEG;
 pub const RETAINED_HARD: isize = 8 * 1024 * 1024;
 pub const PER_PACKET_HARD: usize = 16 * 1024 * 1024;
 
-pub const KINDS: [&str; 16] = [
+pub const KINDS: [&str; 18] = [
     "http-head-never-ends",
     "tls-application-data",
     "random-bytes",
@@ -47,6 +47,10 @@ pub const KINDS: [&str; 16] = [
     // an HTTP/2 header block that raises the HPACK table size to 16 MiB, inserts 4000 entries and then fails to decode,
     // followed by single bytes: whatever a failed decode leaves behind must not accumulate over the re-parses
     "h2-header-block-growing-the-hpack-table-then-failing",
+    // a head that DOES complete, with thousands of header lines of pairwise different names (far beyond the limit of 100):
+    // rejecting it must not cost more than reading it
+    "http-request-head-of-4000-distinct-lines-completes",
+    "http-response-head-of-4000-distinct-lines-completes",
 ];
 
 /// kinds whose byte stream is a prefix followed by one unit repeated for ever
@@ -65,6 +69,14 @@ fn periodic(kind: &str) -> Option<(Vec<u8>, Vec<u8>)> {
         "h2-preface-settings-then-many-small-frames" => Some(([b"PRI * HTTP/2.0\r\n\r\nSM\r\n\r\n".to_vec(), vec![0, 0, 0, 4, 0, 0, 0, 0, 0]].concat(), vec![0, 0, 8, 6, 0, 0, 0, 0, 0, 1, 2, 3, 4, 5, 6, 7, 8])),
         "http-head-of-many-short-lines" | "http-head-behind-a-sequence-hole" => Some((b"GET / HTTP/1.1\r\nHost: h\r\n".to_vec(), b"X: y\r\n".to_vec())),
         "binary-data-behind-a-sequence-hole" => Some((vec![], vec![0xee, 0x01, 0x80, 0xff, 0x16, 0x03, 0x7f])),
+        "http-request-head-of-4000-distinct-lines-completes" | "http-response-head-of-4000-distinct-lines-completes" => {
+            let mut h = if kind.starts_with("http-request") { b"GET / HTTP/1.1\r\nHost: h\r\n".to_vec() } else { b"HTTP/1.1 200 OK\r\nServer: s\r\n".to_vec() };
+            for i in 0..4000 {
+                h.extend(format!("x{i}: v\r\n").into_bytes());
+            }
+            h.extend(b"\r\n");
+            Some((h, b"body ".to_vec()))
+        }
         "h2-header-block-growing-the-hpack-table-then-failing" => {
             let mut block = crate::gen::h2::int(16 * 1024 * 1024, 5, 0x20);
             for _ in 0..4000 {
@@ -420,7 +432,7 @@ pub fn run(thorough: bool) -> Outcome {
     run_capacity_routes(&mut total);
     Outcome {
         report: total,
-        rule: "deterministic chains: SYN, SYN+ACK, then N segments (1400, 64, 1 or 16000 bytes each, same byte stream; jumbo chains stop at 4096 segments) of 16 never-fingerprinting traffic kinds (incl. many complete small records / frames / lines per segment) x both directions x 4 analyzers; after EVERY packet the bytes retained since the connection started and the bytes allocated while handling the packet are recorded (counting allocator, per thread): hard limits 8 MiB / 16 MiB at every step; above the soft limits (256 KiB retained, 1 MiB + 64 x segment size per packet) the second half of the chain must not exceed the first (retained + 64 KiB, per packet x 1.25 + 64 KiB); capacity families: capacity + k connections (k >= capacity) for capacities 1, 8, 64, 1000 (and 30 000 / 200 000 connections on capacity 8; every connection with timestamped segments of both sides) must not retain more than 1.25 x what `capacity` connections retain + 256 KiB; capacity routes: 4 x capacity connections opened before any sends its request, through analyze_pcap of HuginnNetHttp::new, with_config without init_pool (1, 2, 4, 16 workers) and the unified analyzer for capacities 1, 2, 8: at most `capacity` requests can be reported, and all HTTP routes agree; distinct = distinct (chain, peak) outcomes".into(),
+        rule: "deterministic chains: SYN, SYN+ACK, then N segments (1400, 64, 1 or 16000 bytes each, same byte stream; jumbo chains stop at 4096 segments) of 18 never-fingerprinting traffic kinds (incl. heads of 4000 distinct header lines that do complete) (incl. many complete small records / frames / lines per segment) x both directions x 4 analyzers; after EVERY packet the bytes retained since the connection started and the bytes allocated while handling the packet are recorded (counting allocator, per thread): hard limits 8 MiB / 16 MiB at every step; above the soft limits (256 KiB retained, 1 MiB + 64 x segment size per packet) the second half of the chain must not exceed the first (retained + 64 KiB, per packet x 1.25 + 64 KiB); capacity families: capacity + k connections (k >= capacity) for capacities 1, 8, 64, 1000 (and 30 000 / 200 000 connections on capacity 8; every connection with timestamped segments of both sides) must not retain more than 1.25 x what `capacity` connections retain + 256 KiB; capacity routes: 4 x capacity connections opened before any sends its request, through analyze_pcap of HuginnNetHttp::new, with_config without init_pool (1, 2, 4, 16 workers) and the unified analyzer for capacities 1, 2, 8: at most `capacity` requests can be reported, and all HTTP routes agree; distinct = distinct (chain, peak) outcomes".into(),
         exhaustive: true,
         bounds: json!({"segments_per_chain": n, "segment_bytes": SIZES, "chains": jobs.len(), "retained_limit": RETAINED_LIMIT, "per_packet_limit": PER_PACKET_LIMIT}),
     }
